@@ -117,6 +117,30 @@ CHECKS = {
         note="(a) rebinds resource_tracker.open/sys/signal as module attributes; state merging uses the real registry dict and file existence, which determine the loop's future. (b) uses real processes: the OS schedule is not controlled, the check polls for convergence (5 s) and tracker exit (10 s).",
         design_ref="2/C20",
     ),
+    "C05": dict(
+        category="fault_enumeration",
+        engine="E3-fs-seam (vf/fsmon.py)",
+        technique="exhaustive crash-point enumeration: a snapshot of the cache directory before every intercepted file-system call of each workload (every prefix of the mutation sequence), torn-write variants, both directory-listing orders; recovery of every distinct crash state in fresh processes",
+        text="Nine workloads (cold call, warm + new call, call after a source change, callback-driven invalidation, call_and_shelve, compressed store, reduce_size, clear, second function in the same directory) run once each under the file-system seam; every distinct on-disk state a kill -9 could leave (including torn variants of files that were growing, identified by inode so that renamed files are never torn) is recovered six ways in fresh forked processes: plain calls, calls with expires_after, call_and_shelve().get(), reduce_size then calls, clear then calls, and loading every output.pkl present. Oracle: correct value of the current code, no exception, every output.pkl under its final name loads.",
+        note="Crash = process death: completed system calls are visible, Python-level buffers are lost. Interception is by sys.monitoring CALL events on the C entry points (no LD_PRELOAD/strace witness in this revision); directory order is patched at os.scandir/os.listdir. Multi-write C calls are approximated by the torn variants.",
+        design_ref="1.3, 2/C05",
+    ),
+    "C12": dict(
+        category="model_checking",
+        engine="explicit-state BFS over definition/call histories, replayed in forked processes",
+        technique="explicit-state model checking: BFS with state merging over histories of define / call newest or older definition / swap code / restart, each replayed on the real Memory in forked processes, version-tagged return values as oracle",
+        text="Histories up to depth 6 (thorough 7) over {define version 1/2/3 of a same-named function by rewriting its file, call the newest or the previous still-referenced definition with argument 0/1, swap a code object, restart the process} are explored breadth-first for module-level, nested, lambda and __main__ functions; states are merged on the digest of the cache directory and source file plus the live definitions. Every version returns values tagged with its version, so a value served from another version's computation is visible. Unchanged code must keep its cache across restarts.",
+        note="Replays run in forked children (one per process life) with joblib.memory._FUNCTION_HASHES cleared at start. The stale-older-definition findings (source-text identity) are listed in known_findings.json by history shape; a wrong value for the newest definition with no stale call in the history is not listed and alarms.",
+        design_ref="2/C12",
+    ),
+    "C17": dict(
+        category="model_checking",
+        engine="explicit-state enumeration on real parallel_config / Parallel objects",
+        technique="explicit-state enumeration of context stacks x explicit arguments (60^3 resolutions), BFS over enter/exit(normal|exception) sequences with a differential scoping oracle, and all operation-granularity interleavings of two threads",
+        text="(A) every (outer context, inner context, explicit Parallel arguments) triple over backend x n_jobs x prefer x require is constructed for real and compared with a small reference resolver (explicit > innermost > outer > default; prefer is a hint; require='sharedmem' yields a thread backend or ValueError) plus the resolver-independent sharedmem invariant; (B) per-key precedence at depth <= 4 for verbose / max_nbytes / mmap_mode / temp_folder; (C) all context stacks up to depth 2 (thorough 3) with normal and exceptional exits: probes after an exit equal the probes before the matching enter; (D) two threads running programs of <= 3 enter/exit/probe operations under all interleavings observe what they observe alone.",
+        note="The reference resolver encodes one rule taken from the test-suite (a context-chosen backend replaced by the thread backend takes the context's n_jobs with it). Thread interleavings are at operation granularity (real threads stepped by semaphores).",
+        design_ref="2/C17",
+    ),
 }
 
 NOT_BUILT_REASON = "check not built yet in this revision of /verif (planned in DESIGN.md section 2; model checking applies)"
